@@ -510,8 +510,10 @@ def synthesize(S, bound, max_height=None, node_budget=300000, all_min=False, on_
         h = len(st)
         for k in range(1, min(16, h) + 1):
             v = st[k - 1]
-            if uses.get(v, 0) <= st.count(v) - 0 and st.count(v) >= uses.get(v, 0):
-                continue            # duplicating a value of which enough copies exist is never needed
+            if uses.get(v, 0) == 0 or st.count(v) > uses.get(v, 0):
+                continue            # a value nobody needs, or of which a surplus copy already exists, is never duplicated
+            # (one surplus copy is allowed: DUPk ... POP can be cheaper than the SWAPs that bring a deep value up,
+            #  e.g. KECCAK256_0 DUP3 MSTORE8_0 POP POP = 40 gas against KECCAK256_0 SWAP1 SWAP2 MSTORE8_0 POP = 41)
             if h + 1 > max_height:
                 break
             seq.append("DUP%d" % k)
